@@ -115,8 +115,8 @@ theorem const_zero (w : Nat) : const w 0 = 0 := by
   simp [const, put_zero]
 theorem const_one (w : Nat) : const w 1 = 1 % 2 ^ w := by
   simp [const, put_one]
-theorem add_eq (w a b : Nat) : add w a b = (a + b) % 2 ^ w := by
-  simp [add, addc, const_zero]
+theorem add_eq (w a b : Nat) : addS w a b = (a + b) % 2 ^ w := by
+  simp [addS, addc, const_zero]
 theorem or2_one (a b : Nat) : or2 1 a b = if a % 2 = 1 ∨ b % 2 = 1 then 1 else 0 := by
   have ha : a % 2 = 0 ∨ a % 2 = 1 := by omega
   have hb : b % 2 = 0 ∨ b % 2 = 1 := by omega
